@@ -45,11 +45,11 @@ ANCHORS = ['debian._deb822_repro.parsing:Deb822NoDuplicateFieldsParagraphElement
 MUST_REACH = ANCHORS
 FLOORS = {'quick': {'nontrivial': 1200, 'monitors': {'M.step': 8000, 'M.index': 8000, 'M.reparse': 8000, 'K3': 3000, 'K4': 3000, 'K6': 5000},
                     'counters': {'op:order_first': 500, 'op:order_after': 500, 'op:insert': 300, 'op:append': 300,
-                                 'dup-moved-together': 150, 'placed-after-unterminated-last-field': 60, 'big-document': 8, 'new-paragraph-equal-in-content-to-an-existing-one': 250}},
+                                 'dup-moved-together': 150, 'placed-after-unterminated-last-field': 60, 'big-document': 8, 'new-paragraph-equal-in-content-to-an-existing-one': 250, 'sort-key-fails:boom-first': 90, 'sort-key-fails:boom-mid': 90, 'sort-key-fails:boom-last': 90, 'sort-key-fails:unorderable': 90, 'sort-key-fails:boom-on-compare': 90}},
           'thorough': {'nontrivial': 80000, 'monitors': {'M.step': 500000, 'M.index': 500000, 'M.reparse': 500000, 'K3': 200000,
                                                          'K4': 200000, 'K6': 300000},
                        'counters': {'op:order_first': 30000, 'op:order_after': 30000, 'op:insert': 20000, 'op:append': 20000,
-                                    'dup-moved-together': 10000, 'placed-after-unterminated-last-field': 4000, 'big-document': 1200, 'new-paragraph-equal-in-content-to-an-existing-one': 25000}}}
+                                    'dup-moved-together': 10000, 'placed-after-unterminated-last-field': 4000, 'big-document': 1200, 'new-paragraph-equal-in-content-to-an-existing-one': 25000, 'sort-key-fails:boom-first': 4500, 'sort-key-fails:boom-mid': 4500, 'sort-key-fails:boom-last': 4500, 'sort-key-fails:unorderable': 4500, 'sort-key-fails:boom-on-compare': 4500}}}
 LEVEL_TEXT = ('Runtime monitoring: seeded histories of structural operations on live format-preserving documents; after every '
               'operation the dump is compared with a whole-field reference list model (unique ids identify every field), the '
               '(name, i) index of the live paragraph is compared with document order, a fresh parse is compared with the model, '
@@ -96,6 +96,7 @@ def cases(ctx):
     if ctx.shard == 0:
         yield {'kind': 'repo-tests'}        # the repository's own tests under K1-K6, as one more workload
     r = ctx.rng('docs')
+    rf = ctx.rng('failing-sorts')
     for n in range(ctx.size(2600, 400000)):
         if r.random() < .04:
             ids = rtdoc.Ids()
@@ -150,6 +151,11 @@ def cases(ctx):
                 ops.append(['append', 0, newp])
                 names.append([x[0] for x in newp])
                 dupflag.append(False)
+        # a sort whose key function FAILS (raises at the first / a middle / the last name, or returns keys that cannot be
+        # ordered): the caller's exception comes back and the paragraph still holds every field, whole (own stream)
+        if rf.random() < .3:
+            for _ in range(rf.choice([1, 1, 2])):
+                ops.insert(rf.randint(0, len(ops)), ['sort', rf.randrange(len(doc['paras'])), rf.choice(FAILING_SORTS)])
         yield {'kind': 'struct', 'doc': doc, 'ops': ops}
 
 
@@ -168,6 +174,37 @@ def finish(ctx):
 
 # ---------------------------------------------------------------------------
 # reference model of key resolution / re-ordering
+
+FAILING_SORTS = ['boom-first', 'boom-mid', 'boom-last', 'unorderable', 'boom-on-compare']
+
+
+class _KeyBoom(Exception):
+    """The caller's own exception, raised inside a sort key function."""
+
+
+class _NoOrder(object):
+    def __init__(self, n):
+        self.n = n
+
+    def __lt__(self, other):
+        raise _KeyBoom('comparison of sort keys failed')
+
+
+def failing_key(which, nfields):
+    calls = [0]
+    at = {'boom-first': 1, 'boom-mid': max(1, (nfields + 1) // 2), 'boom-last': max(1, nfields)}.get(which)
+
+    def key(n):
+        calls[0] += 1
+        if at is not None and calls[0] >= at:
+            raise _KeyBoom('key function failed at call %d' % calls[0])
+        if which == 'unorderable':
+            return n.lower() if calls[0] % 2 else len(n)
+        if which == 'boom-on-compare':
+            return _NoOrder(n)
+        return n.lower()
+    return key
+
 
 class OpError(Exception):
     pass
@@ -313,6 +350,14 @@ def _history(ctx, case, f, model, paras):
                         # documented default: case-insensitive by field name (default_field_sort_key), stable
                         live.sort_fields()
                         expected = sorted(fields, key=lambda fl: fl['name'].lower())
+                    elif op[2] in FAILING_SORTS:
+                        expected = 'raise'
+                        ctx.count('sort-key-fails:' + op[2])
+                        try:
+                            live.sort_fields(key=failing_key(op[2], len(fields)))
+                        except (_KeyBoom, TypeError) as e:
+                            raised = e
+                            ctx.count('sort-key-fails:exception-came-back')
                     elif op[2] == 'reentrant':
                         # the key function looks at the paragraph being sorted (read-only): `in`, len(), iteration
                         ctx.count('sort-key-reads-the-paragraph-being-sorted')
@@ -321,7 +366,7 @@ def _history(ctx, case, f, model, paras):
                     else:
                         live.sort_fields(key=SORT_KEYS[op[2]])
                         expected = sorted(fields, key=lambda fl: SORT_KEYS[op[2]](fl['name']))
-                    if unterminated_last:
+                    if unterminated_last and expected != 'raise':
                         ctx.count('placed-after-unterminated-last-field')
                 elif kind == 'set':
                     key, value = op[2], op[3]
